@@ -448,7 +448,7 @@ func (st *State) execRange(x *ast.RangeStmt, label string) []Outcome {
 		i := getIdx(s)
 		s.assume(sCmp("<=", "0", i))
 		if isString {
-			r, w := s.decodeRune(coll.content(), i, n)
+			r, w := s.decodeRune(coll, i)
 			width = w
 			s.ghost[idxName+"w"] = vInt(w, intType)
 			if valObj != nil {
@@ -463,7 +463,7 @@ func (st *State) execRange(x *ast.RangeStmt, label string) []Outcome {
 			case KSlice:
 				v = s.named(s.loadElem(nil, coll, i), "elem")
 			case KString:
-				v = s.named(vInt(sSel(coll.content(), i), types.Typ[types.Uint8]), "ch")
+				v = s.named(vInt(coll.at(i), types.Typ[types.Uint8]), "ch")
 			case KArray:
 				terms := make([]string, len(coll.Sub))
 				for k, c := range coll.Sub {
@@ -520,21 +520,54 @@ func (st *State) execRangeMap(x *ast.RangeStmt, label string, coll Val, collT ty
 	panic(vcErr("range over map not supported yet"))
 }
 
-// decodeRune models utf8.DecodeRuneInString(s[i:]) with the facts the stdlib guarantees.
-func (st *State) decodeRune(content, i, n string) (r, w string) {
+// utf8Prelude defines Go's UTF-8 decoding exactly (unicode/utf8.DecodeRune): position p, end e (absolute indices into c).
+func (V *Verifier) utf8Prelude() {
+	if V.preludeSeen["utf8"] {
+		return
+	}
+	cont := func(b string) string { return "(and (<= 128 " + b + ") (<= " + b + " 191))" }
+	b0, b1, b2, b3 := "(select c p)", "(select c (+ p 1))", "(select c (+ p 2))", "(select c (+ p 3))"
+	v2 := "(and (<= 194 " + b0 + ") (<= " + b0 + " 223) (>= (- e p) 2) " + cont(b1) + ")"
+	v3 := "(and (>= (- e p) 3) " + cont(b2) + " (or (and (= " + b0 + " 224) (<= 160 " + b1 + ") (<= " + b1 + " 191)) (and (or (and (<= 225 " + b0 + ") (<= " + b0 + " 236)) (and (<= 238 " + b0 + ") (<= " + b0 + " 239))) " + cont(b1) + ") (and (= " + b0 + " 237) (<= 128 " + b1 + ") (<= " + b1 + " 159))))"
+	v4 := "(and (>= (- e p) 4) " + cont(b2) + " " + cont(b3) + " (or (and (= " + b0 + " 240) (<= 144 " + b1 + ") (<= " + b1 + " 191)) (and (<= 241 " + b0 + ") (<= " + b0 + " 243) " + cont(b1) + ") (and (= " + b0 + " 244) (<= 128 " + b1 + ") (<= " + b1 + " 143))))"
+	args := "((c (Array Int Int)) (p Int) (e Int))"
+	V.addPrelude("utf8",
+		"(define-fun g_u8v2 "+args+" Bool "+v2+")",
+		"(define-fun g_u8v3 "+args+" Bool "+v3+")",
+		"(define-fun g_u8v4 "+args+" Bool "+v4+")",
+		"(define-fun g_utf8_width "+args+" Int (ite (>= p e) 0 (ite (< "+b0+" 128) 1 (ite (g_u8v2 c p e) 2 (ite (g_u8v3 c p e) 3 (ite (g_u8v4 c p e) 4 1))))))",
+		"(define-fun g_utf8_rune "+args+" Int (ite (>= p e) 65533 (ite (< "+b0+" 128) "+b0+" (ite (g_u8v2 c p e) (+ (* (- "+b0+" 192) 64) (- "+b1+" 128)) (ite (g_u8v3 c p e) (+ (* (- "+b0+" 224) 4096) (* (- "+b1+" 128) 64) (- "+b2+" 128)) (ite (g_u8v4 c p e) (+ (* (- "+b0+" 240) 262144) (* (- "+b1+" 128) 4096) (* (- "+b2+" 128) 64) (- "+b3+" 128)) 65533))))))",
+	)
+}
+
+// decodeRune models utf8.DecodeRuneInString(s[i:]) exactly (definitions in the prelude) and adds
+// the derived facts the proofs use most, so that the solver need not unfold the definition for them.
+func (st *State) decodeRune(s Val, i string) (r, w string) {
 	fc := st.fc
-	fc.declareFun("g_utf8_rune", []string{"(Array Int Int)", "Int", "Int"}, "Int")
-	fc.declareFun("g_utf8_width", []string{"(Array Int Int)", "Int", "Int"}, "Int")
-	fc.noteAssumption("utf8 decoding (range over string, utf8.DecodeRune*) is characterised by axioms: width in 1..4 within the input, ASCII decodes to itself with width 1, a non-ASCII lead byte yields a rune >= 0x80 or RuneError, runes are valid code points (no surrogates)")
-	r = st.define("rune", "Int", sApp("g_utf8_rune", content, i, n))
-	w = st.define("width", "Int", sApp("g_utf8_width", content, i, n))
-	b0 := sSel(content, i)
-	st.assume(sAnd(sCmp("<=", "1", w), sCmp("<=", w, "4"), sCmp("<=", sAdd(i, w), n)))
+	fc.V.utf8Prelude()
+	p := st.define("p", "Int", sAdd(s.soff(), i))
+	e := st.define("e", "Int", sAdd(s.soff(), s.length()))
+	c := s.content()
+	return st.decodeAt(c, p, e)
+}
+
+func (st *State) decodeAt(c, p, e string) (r, w string) {
+	fc := st.fc
+	fc.V.utf8Prelude()
+	fc.noteAssumption("unicode/utf8 decoding is defined exactly as in the Go standard library (transcribed in the prelude; compared with the real stdlib by the setup self-check)")
+	r = st.define("rune", "Int", sApp("g_utf8_rune", c, p, e))
+	w = st.define("width", "Int", sApp("g_utf8_width", c, p, e))
+	for k := 0; k < 4; k++ {
+		b := sSel(c, sAdd(p, sInt(int64(k))))
+		st.assume(sAnd(sCmp("<=", "0", b), sCmp("<=", b, "255")))
+	}
+	b0 := sSel(c, p)
+	nonEmpty := sCmp("<", p, e)
+	st.assume(sImp(nonEmpty, sAnd(sCmp("<=", "1", w), sCmp("<=", w, "4"), sCmp("<=", sAdd(p, w), e))))
 	st.assume(sAnd(sCmp("<=", "0", r), sCmp("<=", r, "1114111"), sOr(sCmp("<", r, "55296"), sCmp(">", r, "57343"))))
-	st.assume(sImp(sCmp("<", b0, "128"), sAnd(sEq(w, "1"), sEq(r, b0))))
-	st.assume(sImp(sCmp(">=", b0, "128"), sCmp(">=", r, "128")))
-	// width is the encoded length of the rune, except for invalid input: RuneError with width 1
+	st.assume(sImp(sAnd(nonEmpty, sCmp("<", b0, "128")), sAnd(sEq(w, "1"), sEq(r, b0))))
+	st.assume(sImp(sAnd(nonEmpty, sCmp(">=", b0, "128")), sCmp(">=", r, "128")))
 	rl := sIte(sCmp("<", r, "128"), "1", sIte(sCmp("<", r, "2048"), "2", sIte(sCmp("<", r, "65536"), "3", "4")))
-	st.assume(sOr(sEq(w, rl), sAnd(sEq(r, "65533"), sEq(w, "1"))))
+	st.assume(sImp(nonEmpty, sOr(sEq(w, rl), sAnd(sEq(r, "65533"), sEq(w, "1")))))
 	return r, w
 }
